@@ -241,15 +241,17 @@ def evalArith (fuel : Nat) (op : ArithOp) (l r : Value) : Res :=
   match isErr r with
   | some e => .ok (.err e)
   | none =>
-  let oneLeft : Option (Value × Value) := match l, r with
-    | .arr [x], .arr ys => if ys.length ≠ 1 then some (x, .arr ys) else none
+  -- list ∘ list: a one-element array acts as its element, on either side, at any depth
+  let single : Option (Value × Value × Bool) := match l, r with
+    | .arr [x], .arr [y] => some (x, y, true)
+    | .arr [x], .arr ys => some (x, .arr ys, false)
+    | .arr xs, .arr [y] => some (.arr xs, y, false)
     | _, _ => none
-  match oneLeft with
-  | some (x, r') =>
-    -- a one-element array acts as its element on the left too
+  match single with
+  | some (l', r', wrap) =>
     (match fuel with
      | 0 => .error .error
-     | f + 1 => evalArith f op x r')
+     | f + 1 => if wrap then (evalArith f op l' r').map (fun v => .arr [v]) else evalArith f op l' r')
   | none =>
   match l, r with
   | .arr xs, _ =>
